@@ -125,6 +125,12 @@ class Folder:
                 if isinstance(v, int) and not isinstance(v, bool) and 0 <= v <= 70000:
                     return bytes(v)
                 return UNKNOWN
+            if isinstance(fn, ast.Name) and fn.id == 'range' and 1 <= len(e.args) <= 3 and not e.keywords:
+                vs = [self._fold(a, mod, cls, env) for a in e.args]
+                if all(isinstance(v, int) and not isinstance(v, bool) for v in vs) and (len(vs) < 3 or vs[2] != 0):
+                    r = range(*vs)
+                    return list(r) if len(r) <= 5000 else UNKNOWN
+                return UNKNOWN
             if isinstance(fn, ast.Name) and fn.id == 'memoryview' and len(e.args) == 1 and not e.keywords:
                 v = self._fold(e.args[0], mod, cls, env)
                 return v if isinstance(v, bytes) else UNKNOWN
@@ -171,6 +177,27 @@ class Folder:
                     if isinstance(v, int):
                         return v
             return UNKNOWN
+        if isinstance(e, ast.ListComp) and len(e.generators) == 1 and isinstance(e.generators[0].target, ast.Name) and not e.generators[0].is_async:
+            g = e.generators[0]
+            it = self._fold(g.iter, mod, cls, env)
+            if not isinstance(it, (list, tuple, bytes, range)) or len(it) > 5000:
+                return UNKNOWN
+            out_l = []
+            for x in it:
+                env2 = dict(env)
+                env2[g.target.id] = x
+                keep = True
+                for c in g.ifs:
+                    t = self._fold(c, mod, cls, env2)
+                    if t is UNKNOWN:
+                        return UNKNOWN
+                    keep = keep and bool(t)
+                if keep:
+                    v = self._fold(e.elt, mod, cls, env2)
+                    if v is UNKNOWN:
+                        return UNKNOWN
+                    out_l.append(v)
+            return out_l
         if isinstance(e, ast.Dict):
             out_d = {}
             for k, v in zip(e.keys, e.values):
